@@ -258,8 +258,13 @@ def run_threads(acc, pool, refs, rnd, nthreads, per_thread, inject):
     orders = [[rnd.randrange(len(pool)) for _ in range(per_thread)] for _ in range(nthreads)]
     if inject:
         # the LINE callback is a Python frame of its own on top of the parser's stack: inputs at the recursion limit are left to the other runs
+        # (also mutants and concatenations of those inputs, recognised by their nesting: anything nested 15 deep or more)
+        from .c03 import _crude_depth
+
         near = set(near_limit_items())
-        orders = [[i for i in o if pool[i] not in near] for o in orders]
+        deep = {i for o in orders for i in o if pool[i] in near or _crude_depth(pool[i]) >= 15}
+        acc.count("inputs_left_out_of_the_injection_run_for_their_nesting", len(deep))
+        orders = [[i for i in o if i not in deep] for o in orders]
     results = [[] for _ in range(nthreads)]
     stats = {"switches": 0, "last": None, "points": set(), "events": 0}
     mon = sys.monitoring
